@@ -1337,7 +1337,142 @@ pub fn wiring_sweep(partial: bool) -> Vec<(&'static str, Result<(), String>)> {
     out
 }
 
-pub const RULE: &str = "scripts = generated scripts of chunk sizes / short transfers / Interrupted and other errors / payload bytes, replayed by the mocked required methods of std::io::{Write, Read, BufRead, Seek}, core Hasher and Display, embedded-hal {DelayNs, OutputPin, StatefulOutputPin, I2c, SpiDevice, SetDutyCycle}, each driven through an upstream provided method (write_all, write_fmt, write_vectored, read_exact, read_to_end, read_to_string, read_vectored, read_line, read_until, rewind, stream_position, write_u8..write_isize, format! with width/fill, delay_us/ms incl. the overflow-splitting range, set_state, toggle, read/write/write_read, read/write/transfer/transfer_in_place, set_duty_cycle_fully_off/on/fraction/percent), on strict and partial mocks, with 0-16 further clones of the mock alive during the drive, optionally catch-all applies_default_impl() clauses, ended by drop / report() / verify(); wiring = one entry point configured at a time for every method of the mirrored traits, required and provided (mocked directly) (incl. tokio and futures-io poll_* methods and their vectored defaults), enumerated. Non-trivial = the script has a short transfer or error before completion, or >= 2 required-method calls; distinct = distinct case";
+pub const RULE: &str = "scripts = generated scripts of chunk sizes / short transfers / Interrupted and other errors / payload bytes, replayed by the mocked required methods of std::io::{Write, Read, BufRead, Seek}, core Hasher and Display, embedded-hal {DelayNs, OutputPin, StatefulOutputPin, I2c, SpiDevice, SetDutyCycle}, each driven through an upstream provided method (write_all, write_fmt, write_vectored, read_exact, read_to_end, read_to_string, read_vectored, read_line, read_until, rewind, stream_position, write_u8..write_isize, format! with width/fill, delay_us/ms incl. the overflow-splitting range, set_state, toggle, read/write/write_read, read/write/transfer/transfer_in_place, set_duty_cycle_fully_off/on/fraction/percent), on strict and partial mocks, with 0-16 further clones of the mock alive during the drive, optionally catch-all applies_default_impl() clauses, ended by drop / report() / verify(); wiring = one entry point configured at a time for every method of the mirrored traits, required and provided (mocked directly) (incl. tokio and futures-io poll_* methods and their vectored defaults), enumerated. racing-first-use = every schedule (sampled for 3-4 threads) of 2-3 threads x 1-2 first calls of a provided &self method (Error::source, tokio AsyncWrite::is_write_vectored) through one shared &Unimock: every thread gets what a plain implementation returns. Non-trivial = the script has a short transfer or error before completion, or >= 2 required-method calls; distinct = distinct case";
+
+// ------------------------------------------------------------------ first use of a provided `&self` method, racing
+
+/// T threads call a provided `&self` method of a mirrored trait through ONE shared `&Unimock` that has not
+/// delegated anything yet (the delegation helper is installed by the first such call): under every schedule
+/// every thread gets what a plain implementation returns.
+#[derive(Clone, Debug, PartialEq, Eq, Hash, Serialize, Deserialize)]
+pub struct FirstUseCase {
+    /// 0 = `std::error::Error::source`, 1 = tokio `AsyncWrite::is_write_vectored`, 2 = both alternately
+    pub method: u8,
+    pub threads: u8,
+    pub calls: u8,
+    pub partial: bool,
+    pub schedule: Vec<u8>,
+}
+
+fn first_use_call(u: &Unimock, method: u8, k: usize) -> Result<String, String> {
+    let which = if method == 2 { k as u8 % 2 } else { method };
+    catch(|| match which {
+        0 => format!("{}", std::error::Error::source(u).is_none()),
+        _ => format!("{}", tokio::io::AsyncWrite::is_write_vectored(u)),
+    })
+}
+
+pub fn execute_first_use(c: &FirstUseCase, schedule: &[u8]) -> Result<crate::props::c10::Executed, String> {
+    let u = if c.partial { Unimock::new_partial(()) } else { Unimock::new(()) };
+    let arc = Arc::new(u);
+    let mut bodies: Vec<Box<dyn FnOnce() -> Vec<Result<String, String>> + Send>> = vec![];
+    for _ in 0..c.threads {
+        let handle = arc.clone();
+        let (method, calls) = (c.method, c.calls);
+        bodies.push(Box::new(move || {
+            let out = (0..calls as usize).map(|k| first_use_call(&handle, method, k)).collect();
+            drop(handle);
+            out
+        }));
+    }
+    let run = crate::sched::run(bodies, schedule);
+    let original = Arc::try_unwrap(arc).map_err(|_| "HARNESS: a thread kept its handle to the shared mock".to_string())?;
+    if run.hung {
+        let _ = catch(move || drop(original));
+        return Err("HARNESS: watchdog: a scheduled thread did not get the token within 20 s".into());
+    }
+    let mut verdict = Ok(());
+    'o: for (t, outs) in run.results.iter().enumerate() {
+        for (k, r) in outs.iter().enumerate() {
+            let which = if c.method == 2 { k as u8 % 2 } else { c.method };
+            // what a plain struct implementing the upstream trait returns: no source, not vectored
+            let plain = if which == 0 { "true" } else { "false" };
+            match r {
+                Ok(v) if v == plain => {}
+                Ok(v) => {
+                    verdict = Err(format!("thread {t} call {k}: the mock returned {v}, a plain implementation returns {plain}"));
+                    break 'o;
+                }
+                Err(p) => {
+                    verdict = Err(format!("thread {t} call {k}: the mock panicked where a plain implementation returns {plain}: {p}"));
+                    break 'o;
+                }
+            }
+        }
+    }
+    let teardown = catch(move || drop(original));
+    verdict?;
+    if let Err(p) = teardown {
+        return Err(format!("dropping the mock after the threads were joined panicked: {p}"));
+    }
+    Ok(crate::props::c10::Executed { decisions: run.decisions, switches: run.switches, trace_len: run.trace.len() })
+}
+
+pub fn check_first_use(c: &FirstUseCase) -> Result<CaseInfo, String> {
+    let e = execute_first_use(c, &c.schedule)?;
+    Ok(CaseInfo::new(e.switches >= 2)
+        .class(["Error::source", "AsyncWrite::is_write_vectored", "both-alternately"][c.method.min(2) as usize])
+        .class_if(c.partial, "partial-mock")
+        .class_if(e.switches >= 4, "four-or-more-context-switches"))
+}
+
+pub fn first_use_exhaustive(limit: u64) -> vcore::SubReport {
+    let mut rep = vcore::SubReport::new("racing-first-use-exhaustive");
+    rep.exhaustive = true;
+    let mut per_config = vec![];
+    'outer: for (threads, calls) in [(2u8, 1u8), (2, 2), (3, 1)] {
+        for method in 0..3u8 {
+            if method == 2 && calls < 2 {
+                continue;
+            }
+            for partial in [false, true] {
+                let base = FirstUseCase { method, threads, calls, partial, schedule: vec![] };
+                let mut execs = 0u64;
+                let mut with_switches = 0u64;
+                let r = crate::sched::enumerate(limit, |path| {
+                    let e = execute_first_use(&base, path)?;
+                    execs += 1;
+                    if e.switches >= 2 {
+                        with_switches += 1;
+                    }
+                    Ok(e.decisions)
+                });
+                rep.evaluations += execs;
+                for i in 0..with_switches {
+                    rep.nontrivial.insert(vcore::stable_hash(&("first-use", method, threads, calls, partial, i)));
+                }
+                match r {
+                    Ok(done) => {
+                        if done.is_none() {
+                            rep.exhaustive = false;
+                        }
+                        per_config.push(serde_json::json!({"method": method, "threads": threads, "calls": calls, "partial": partial, "schedules": execs, "complete": done.is_some()}));
+                    }
+                    Err((path, reason)) => {
+                        let mut c = base.clone();
+                        c.schedule = path;
+                        if reason.starts_with("HARNESS") {
+                            rep.inconclusive = Some(reason);
+                        } else {
+                            rep.fail(&c, reason);
+                        }
+                        break 'outer;
+                    }
+                }
+                if rep.samples.len() < 2 {
+                    rep.samples.push(serde_json::to_value(&base).unwrap());
+                }
+            }
+        }
+    }
+    rep.extra.insert("configurations".into(), serde_json::json!(per_config));
+    rep
+}
+
+fn first_use_strategy() -> impl Strategy<Value = FirstUseCase> {
+    (0..3u8, prop_oneof![Just((3u8, 2u8)), Just((4, 1)), Just((4, 2)), Just((2, 3))], any::<bool>(), vec(any::<u8>(), 0..64))
+        .prop_map(|(method, (threads, calls), partial, schedule)| FirstUseCase { method, threads, calls, partial, schedule })
+}
 
 pub fn run(ctx: &Ctx) -> Verdict {
     let mut v = Verdict::new("exploration", RULE);
@@ -1364,10 +1499,17 @@ pub fn run(ctx: &Ctx) -> Verdict {
         }
     }
     v.subs.push(rep);
+    // the delegation helper of a shared instance is installed by whichever thread first needs it
+    v.subs.push(first_use_exhaustive(ctx.tier.pick(100_000, 400_000) as u64));
+    v.subs.push(vcore::run_proptest(ctx, "racing-first-use-sampled", ctx.tier.pick(4_000, 150_000), first_use_strategy(), check_first_use));
     v
 }
 
 pub fn replay(sub: &str, case: Value) -> Result<(), String> {
+    if sub.starts_with("racing-first-use") {
+        let c: FirstUseCase = serde_json::from_value(case).map_err(|e| format!("HARNESS: bad case: {e}"))?;
+        return check_first_use(&c).map(|_| ());
+    }
     if sub == "wiring" {
         // old replay files hold the bare name (strict mock), newer ones (name, partial)
         let (name, partial) = match &case {
